@@ -260,8 +260,10 @@ func (p Proxy) ServeHTTP(w http.ResponseWriter, r *http.Request) (int, error) {
 			return 0, nil
 		}
 
-		if backendErr == httpserver.ErrMaxBytesExceeded {
-			return http.StatusRequestEntityTooLarge, backendErr
+		// the transport may wrap the error of the request body
+		// (e.g. in a *net.OpError when the body is copied with ReadFrom)
+		if errors.Is(backendErr, httpserver.ErrMaxBytesExceeded) {
+			return http.StatusRequestEntityTooLarge, httpserver.ErrMaxBytesExceeded
 		}
 
 		if backendErr == context.Canceled {
